@@ -261,12 +261,14 @@ class Link(object):
         if not self.short:
             return n
         t = self.tape
-        c = t.draw('short', 10)
+        if self.short == 'stuck':
+            return 0
+        c = t.draw('short', 10, weights=[3, 2, 1, 2, 2, 1, 1, 1, 2, 0.15])
         cap = (n, n, n, 1, 7, 23, 24, 25, max(1, n // 2), 0)[c]
         if self.short == 'tiny':
             cap = (1, 1, 2, 3, 7, 23, 24, 25, n, 0)[c]
-        if self.short == 'stuck':
-            cap = 0
+        if cap == 0:
+            self.zero_caps = getattr(self, 'zero_caps', 0) + 1
         return min(n, cap)
 
     def deliver(self, data, actor=0):
@@ -353,9 +355,17 @@ class Link(object):
                 self.clock.advance(self.idle_cost)
             if self.cfg.get('short_zero_raises', True):
                 self._rec(idx, actor, 'w', len(data), timeout, 'TcpTimeoutException')
+                self.write_raised()
                 raise self.exc.TcpTimeoutException('Sending timed out (simulated, no room)')
         self._rec(idx, actor, 'w', len(data), timeout, k)
         return k
+
+    def write_raised(self):
+        """A write call raised: the library may give up mid-message, so the peer's framing
+        monitor stops here (the connection is unusable from now on, as it would be in reality)."""
+        self.zero_capacity_raises = getattr(self, 'zero_capacity_raises', 0) + 1
+        if self.device.broken is None and not self.device.at_message_boundary():
+            self.device.broken = 'transport-raised-mid-message'
 
 
 def make_sim_transport(link, waiter):
@@ -500,6 +510,7 @@ class AsyncOps(object):
                 link.clock.advance(link.idle_cost)
             if link.cfg.get('short_zero_raises', True):
                 link._rec(idx, actor, 'w', len(data), timeout, 'TcpTimeoutException')
+                link.write_raised()
                 raise link.exc.TcpTimeoutException('Sending timed out (simulated, no room)')
         link._rec(idx, actor, 'w', len(data), timeout, k)
         return k
